@@ -128,26 +128,30 @@ def r3_polarity(ctx):
     want = "ge(TALLY - THRESH, 0)"
     sites = 0
     for f in stv.methods.values():
+        if f.name in ("get_threshold", "__init__"):
+            continue
         rn = _tally_rename(f.node)
         N = Normalizer(f.node, rename=rn, inline=False)
         pm = astx.parents(f.node)
+        seen = set()
+        # every electing action whose execution depends on the threshold: the element of a filtered
+        # comprehension over the tallies, or an append to the elected list
+        actions = []
         for n in astx.walk_own(f.node):
-            if isinstance(n, ast.Compare) and any(astx.is_self_attr(x, "threshold") for x in ast.walk(n)):
-                if f.name in ("get_threshold", "__init__"):
-                    continue
-                sites += 1
-                top = n
-                while isinstance(pm.get(top), ast.UnaryOp) and isinstance(pm[top].op, ast.Not):
-                    top = pm[top]
-                k = bool_key(N.guard(top))
-                # where is it used: comprehension filter / if-test whose true branch elects
-                par = pm.get(top)
-                elects_on_true = isinstance(par, ast.comprehension) or (
-                    isinstance(par, ast.If) and any(astx.call_name(c) == "append" for c in astx.calls_in(ast.Module(body=par.body, type_ignores=[]), own_only=False)))
-                ctx.check(k == want and elects_on_true, f, n, "elected iff tally >= threshold", k,
-                          f"comparison normalises to `{k}`; documented: elected iff `{want}` (true branch must be the electing one: {elects_on_true})")
-    if sites == 0:
-        ctx.vanished("no tally/threshold comparison found in STV" + ": " + "the election test vanished")
+            if isinstance(n, (ast.ListComp, ast.GeneratorExp, ast.SetComp)) and any(astx.is_self_attr(x, "threshold") for t in n.generators[0].ifs for x in ast.walk(t)):
+                actions.append((n.elt, n))
+            if isinstance(n, ast.Call) and astx.call_name(n) == "append":
+                actions.append((n, n))
+        for act, site in actions:
+            conds = [c for c in astx.path_condition(f.node, act, pm, drop_stale=False) if any(astx.is_self_attr(x, "threshold") for x in ast.walk(c[0]))]
+            if not conds:
+                continue
+            sites += 1
+            lits = literals(N.conj(conds))
+            ctx.check(lits == {want}, f, site, "elected iff tally >= threshold", str(sorted(lits)),
+                      f"the electing action `{astx.u(act)[:50]}` executes under {sorted(lits)}; documented: iff `{want}`")
+    if sites < 2:
+        ctx.vanished(f"tally/threshold-controlled electing actions in STV: {sites} found")
     # the simultaneous loop elects a prefix of the high-to-low ranking and stops at the first failure
     f = prog.find_func("STV._simultaneous_elect_step")
     loops = [n for n in astx.walk_own(f.node) if isinstance(n, ast.For) and any(isinstance(x, ast.Break) for x in ast.walk(n))]
@@ -155,11 +159,13 @@ def r3_polarity(ctx):
     if loops:
         lp = loops[0]
         it = astx.unique_def(f.node, lp.iter.id) if isinstance(lp.iter, ast.Name) else lp.iter
-        ifs = [s for s in lp.body if isinstance(s, ast.If)]
-        good = it is not None and astx.u(it).endswith(".remaining") and len(ifs) == 1 and any(isinstance(s, ast.Break) for s in ifs[0].orelse)
-        if good:
-            app = [c for c in astx.calls_in(ast.Module(body=ifs[0].body, type_ignores=[]), "append", own_only=False)]
-            good = len(app) == 1 and astx.is_name(app[0].args[0], lp.target.id)
+        ifs = [s_ for s_ in lp.body if isinstance(s_, ast.If)]
+        if it is not None and astx.u(it).endswith(".remaining") and len(ifs) == 1 and ifs[0].orelse:
+            branches = [ifs[0].body, ifs[0].orelse]
+            brk = [b for b in branches if any(isinstance(x, ast.Break) for x in b)]
+            app = [b for b in branches if any(isinstance(x, ast.Expr) and isinstance(x.value, ast.Call) and astx.call_name(x.value) == "append"
+                                              and astx.is_name(x.value.args[0], lp.target.id) for x in b)]
+            good = len(brk) == 1 and len(app) == 1 and brk[0] is not app[0]
     ctx.check(good, f, loops[0] if loops else f.node, "simultaneous step elects the above-threshold prefix of prev_state.remaining",
               "for s in remaining: if tally >= threshold: elected.append(s) else: break", "the loop electing above-threshold groups has changed shape")
 
